@@ -128,7 +128,7 @@ def cases_for(cfg, lst, ops, rng, tier):
         first = name == PAIRING[cfg][0][0]
         for n in FULL_LEVELS:
             if n in adm:
-                gen_fpx.gen_level(G, n, tier, scale=1.0 if (first or not quick) else 0.6)
+                gen_fpx.gen_level(G, n, tier, scale=1.0 if not quick else (0.7 if first else 0.4))
         for n in HIGH_LEVELS + ([] if quick else SWEEP_LEVELS):
             if n in adm:
                 gen_fpx.gen_level(G, n, tier, scale=0.3 if n <= 24 else 0.15, heavy=(not quick and n <= 24))
@@ -152,7 +152,7 @@ def cases_for(cfg, lst, ops, rng, tier):
         G = gen_fpx.Gen(sel, p, wbits, rng, ops, tw=0)
         for n in adm:
             if n in (2, 3):
-                gen_fpx.gen_level(G, n, tier, scale=0.3 if quick else 1.0)
+                gen_fpx.gen_level(G, n, tier, scale=0.2 if quick else 1.0)
             elif n <= 12 and (not quick or n <= 6):
                 gen_fpx.gen_level(G, n, tier, scale=0.15 if quick else 0.5, heavy=not quick)
         lines += G.L
